@@ -49,10 +49,17 @@ def gen_cases(tier, seed):
     n = 420 if tier == "quick" else 12000
     for i in range(n):
         yield {"id": "i%d" % i, "seed": env.derive_seed(seed, ID, i), "nedits": 2 + i % 7, "base": i % 4 == 1}
+    # binding grid: every parameter signature (1-4 parameters, defaults on a suffix) x every way of writing the call
+    from .. import bindgrid
+    reps = 2 if tier == "quick" else 12
+    for j, ps in enumerate(bindgrid.signatures()):
+        for r in range(reps):
+            yield {"id": "b%d_%d" % (j, r), "kind": "bind", "params": ps, "seed": env.derive_seed(seed, ID, "b", j, r),
+                   "nested": r % 2 == 1}
 
 
 def expand(case):
-    if "ops" in case or "directed" in case:
+    if "ops" in case or "directed" in case or case.get("kind") == "bind":
         return case
     rnd = random.Random(case["seed"])
     g = None
@@ -124,7 +131,101 @@ def param_spaces(rm):
     return out
 
 
+def run_bind(case):
+    """arguments that bind equally give the same instance, different arguments independent ones; the parameters
+    are bound as names inside the instance (also in a child space of it)"""
+    from .. import bindgrid as B
+    from ..mxutil import val
+    params = case["params"]
+    rnd = random.Random(case["seed"])
+    reset_session()
+    vio = []
+    cnt = {"identity_checks": 0, "bind_spellings": 0, "bind_value_checks": 0, "bind_in_formula": 0}
+
+    def V(kind, sig, **d):
+        if len(vio) < 4:
+            vio.append({"kind": kind, "signature": sig, "detail": dict(d, signature=B.sig_text(params))})
+    m = mx.new_model("M")
+    P = m.new_space("P", formula="lambda %s: None" % B.sig_text(params))
+    names = [p_ for p_, _ in params]
+    expr = " + ".join("%s * %d" % (n, 10 ** i) for i, n in enumerate(names))
+    P.new_cells("h", formula="lambda: %s" % expr)
+    P.new_cells("acc", formula="lambda k: k + h()")
+    if case.get("nested"):
+        P.new_space("Ch").new_cells("hc", formula="lambda: 7 + %s" % expr)
+    plainf = B.plain(params, expr)
+    T = m.new_space("T")
+    T.P = P
+    plan = []
+    for given in B.choices(params):
+        vals = {n: rnd.randint(1, 4) for n in given}
+        for args, kw in B.spellings(params, vals):
+            text = ", ".join([repr(a) for a in args] + ["%s=%r" % (n, v) for n, v in kw])
+            in_formula = rnd.random() < 0.3
+            if in_formula:
+                T.new_cells("g%d" % len(plan), formula="lambda: P(%s).h()" % text)
+            plan.append((args, kw, text, in_formula))
+    seen = {}
+    for k, (args, kw, text, in_formula) in enumerate(plan):
+        key = B.bound_tuple(params, args, kw)
+        exp = plainf(*args, **dict(kw))
+        cnt["bind_spellings"] += 1
+        if in_formula:
+            got = val(T.cells["g%d" % k])
+            cnt["bind_in_formula"] += 1
+            cnt["bind_value_checks"] += 1
+            if got != exp:
+                V("value", "a cells in an instance does not evaluate as in the base with the parameters bound",
+                  call=text, got=got, expected=exp, in_formula=True)
+            continue
+        try:
+            inst = P(*args, **dict(kw))
+        except Exception as e:     # noqa
+            V("call", "a valid call of a parametrised space raised", call=text, error=type(e).__name__)
+            continue
+        got = val(inst.h)
+        cnt["bind_value_checks"] += 1
+        if got != exp:
+            V("value", "a cells in an instance does not evaluate as in the base with the parameters bound",
+              call=text, got=got, expected=exp)
+            continue
+        if case.get("nested"):
+            got = val(inst.Ch.hc)
+            cnt["bind_value_checks"] += 1
+            if got != exp + 7:
+                V("value", "a cells in a child space of an instance does not see the parameters", call=text, got=got,
+                  expected=exp + 7)
+        cnt["identity_checks"] += 1
+        sub_ = P[key if len(key) != 1 else key[0]]
+        if sub_ is not inst:
+            V("identity", "arguments that bind equally give different instances", call=text, key=list(key))
+        if key in seen:
+            if seen[key][0] is not inst:
+                V("identity", "arguments that bind equally give different instances", call=text, first=seen[key][1])
+        else:
+            for k2, (i2, t2) in seen.items():
+                if i2 is inst:
+                    V("identity", "different arguments give the same instance", call=text, other=t2)
+            seen[key] = (inst, text)
+            # independent values: an input in this instance only
+            inst.acc[0] = 1000 + len(seen)
+    for key, (inst, text) in seen.items():
+        cnt["bind_value_checks"] += 1
+        if val(inst.acc, 0) != 1000 + list(seen).index(key) + 1 or val(inst.acc, 1) != 1 + plainf(*key):
+            V("isolation", "values of instances with different arguments are not independent", call=text,
+              got=[val(inst.acc, 0), val(inst.acc, 1)])
+    keys = {B.bound_tuple(params, a_, k_) for a_, k_, _t, _f in plan}
+    got_keys = {(k_ if isinstance(k_, tuple) else (k_,)) for k_ in P.itemspaces}
+    if got_keys != keys:
+        V("count", "the instances of the space are not the distinct bound argument tuples",
+          got=sorted(map(repr, got_keys))[:8], expected=sorted(map(repr, keys))[:8])
+    return {"violations": vio, "counters": cnt, "nontrivial": True, "shape": "bind-" + B.sig_text(params),
+            "matrix": {"binding grid: space signature": {B.sig_text(params): cnt["bind_spellings"]}}}
+
+
 def run_case(case):
+    if case.get("kind") == "bind":
+        return run_bind(case)
     case = expand(case)
     if "directed" in case:
         from . import c12
@@ -384,7 +485,7 @@ def _n(v):
 
 
 def shrink(case, violations, deadline):
-    if "directed" in case:
+    if "directed" in case or case.get("kind") == "bind":
         return None
     from ..shrink import shrink_ops
     return shrink_ops(expand(case), run_case, violations, deadline)
